@@ -449,6 +449,43 @@ def gen_case(rng, tier, dim):
     return case
 
 
+def has_op(j, name):
+    return (j["k"] == "op" and j["name"] == name) or any(has_op(c, name) for c in children(j))
+
+
+def gen_transpose_case(rng, tier):
+    """Transpose(grad(F))-like inputs on mapped domains (symmetric gradient, elasticity): LogicalExpr builds
+    Transpose(J^-T * grad(F^)), a symbolic transpose of a two-factor matrix product (sympde/calculus/matrices.py).
+    The Coq model of LogicalExpr has no Transpose arm: these cases are decided by the independent oracle only
+    (explicit mapping, sympy.diff) and counted as such."""
+    dim = rng.choice([1, 2, 2, 2, 2, 3]) if tier != "quick" else rng.choice([1, 2, 2, 2])
+    mapping, family, mcost = gen_mapping(rng, dim, tier)
+    kinds = ["h1", "h1", "undef"]
+    spaces = {"F": {"kind": rng.choice(kinds), "vector": True}, "G": {"kind": rng.choice(kinds), "vector": True}}
+    gF, gG = OP("grad", VF("F")), OP("grad", VF("G"))
+    T = lambda a: OP("transpose", a)  # noqa
+    c = rng.random()
+    if c < 0.3:
+        shape, tree = "matrix", T(gF)
+    elif c < 0.5:
+        shape, tree = "matrix", ADD(gF, T(copy.deepcopy(gF)))
+    elif c < 0.7:
+        shape, tree = "scalar", OP("inner", ADD(gF, T(copy.deepcopy(gF))), gG)
+    elif c < 0.8:
+        shape, tree = "scalar", OP("inner", T(gF), gG)
+    elif c < 0.88:
+        shape, tree = "matrix", T(MUL(rng.choice([N(2), CS("alpha"), N(1, 2)]), gF))
+    elif c < 0.94:
+        shape, tree = "matrix", T(ADD(gF, gG))
+    else:
+        shape, tree = "matrix", ADD(T(gF), MUL(N(-1), gG))
+    used = tree_funcs(tree)
+    spaces = {f: s for f, s in spaces.items() if f in used}
+    return {"dim": dim, "mapping": mapping, "family": family, "spaces": spaces, "tree": tree,
+            "order": "LT" if rng.random() < 0.8 else "TL", "shape": shape, "seed": rng.randrange(1 << 30),
+            "origin": "random-transpose"}
+
+
 def est_cost(c):
     base = {1: 0.3, 2: 1.5, 3: 22.0}[c["dim"]]
     m = c["mapping"]
@@ -559,6 +596,13 @@ def corpus_cases():
     add(2, {"p": {"kind": "l2", "vector": False}}, DD(0, SF("p")))
     add(2, {"p": {"kind": "l2", "vector": False}, "u": {"kind": "h1", "vector": False}}, DD(1, DD(0, MUL(SF("p"), SF("u")))), order="TL")
     add(1, {"p": {"kind": "l2", "vector": False}}, DD(0, SF("p")))
+    # Transpose on a mapped domain (seeded change C03-n2: transpose of a product without reversing the factors);
+    # oracle-only, the model of LogicalExpr has no Transpose arm
+    FG = {"F": {"kind": "h1", "vector": True}, "G": {"kind": "h1", "vector": True}}
+    F1 = {"F": {"kind": "h1", "vector": True}}
+    add(2, F1, OP("transpose", OP("grad", VF("F"))))
+    add(2, FG, OP("inner", ADD(OP("grad", VF("F")), OP("transpose", OP("grad", VF("F")))), OP("grad", VF("G"))))
+    add(2, F1, OP("transpose", OP("grad", VF("F"))), mapping={"type": "user", "exprs": ["2*x1 + x2/3 + x1*x2/5", "3*x2 - x1*x1/4"]})
     return cs
 
 
@@ -601,6 +645,11 @@ def main(run, replay=None):
                     continue
                 spent += est_cost(c)
                 cases.append(c)
+        # Transpose(grad(F))-like inputs: a generator of their own (own random stream: the cases above are unchanged)
+        import random as _random
+        trng = _random.Random(run.seed * 104729 + 3)
+        for _ in range(14 if quick else 120):
+            cases.append(gen_transpose_case(trng, run.tier))
 
     # ---- run the implementation (batches balanced by estimated cost)
     nb = 16
@@ -668,7 +717,7 @@ def main(run, replay=None):
     t_coq = time.time() - t0 - t_build - t_impl
 
     # ---- decide
-    stats = {"model_agrees": 0, "model_unproved": 0, "model_none": 0, "subst_failed": 0, "coq_undecided": 0,
+    stats = {"model_agrees": 0, "model_unproved": 0, "model_none": 0, "oracle_only_transpose": 0, "subst_failed": 0, "coq_undecided": 0,
              "refused_both": 0, "impl_refused_model_value": 0, "constructor_refused": 0, "impl_raised": 0,
              "timeout": 0, "oracle_checked": 0, "oracle_unavailable": 0, "non_terminal": 0, "unsupported_input": 0}
     err_hist = {}
@@ -720,6 +769,8 @@ def main(run, replay=None):
                             "expression at the image point: %s" % json.dumps(orc.get("info"))[:300]))
             continue
         what, v = code.get(ci, ("value", 9))
+        if has_op(c["tree"], "transpose") and orc.get("ok") is True and v != 0:
+            stats["oracle_only_transpose"] += 1      # no Transpose arm in the model: decided by the oracle alone
         if v == 0:
             stats["model_agrees"] += 1
         elif v == 1:
@@ -853,6 +904,9 @@ def main(run, replay=None):
         "Section hypotheses of Proofs/LogicalP.v (not axioms): chain rule D^_j u = sum_i (D_i u) J_ij, det J <> 0, physical "
         "coordinates = mapping components, and the pull-back relation between a physical function and its logical unknown.",
         "Interface (minus/plus) mappings, integrals / forms (C04, C11) and Trace are not modelled here.",
+        "Transpose(...) inputs (symmetric gradients) have no arm in the model: they are decided by the independent oracle "
+        "only (decisions.oracle_only_transpose); the symbolic matrix constructors they go through "
+        "(sympde/calculus/matrices.py) are modelled and proved in C02 (Props/C02m.v).",
         "An output that is not a terminal expression (Derivative / symbolic determinant left) is reported; the defect "
         "C03-l2-scalar-under-derivative (dx of an L2 scalar) was repaired in /repo (81b21e6) and is a regression case of the corpus.",
         "tequiv=false is 'not proved': such cases are decided by the numeric oracle only (model_unproved).",
